@@ -368,6 +368,21 @@ def kill_pass(ctx, mins, quick):
     uptodate = ofx_server.profile(mins, url, status="1", with_profrs=False).encode()
     base = os.path.join(ctx.work, "kill")
     os.makedirs(base, exist_ok=True)
+    # the system's temporary directory is on ANOTHER file system than the cache whenever this machine has one
+    # (a rename across file systems is a copy)
+    other = None
+    for cand in ("/dev/shm", "/run/shm", "/tmp", "/var/tmp"):
+        try:
+            if os.path.isdir(cand) and os.access(cand, os.W_OK) and os.stat(cand).st_dev != os.stat(base).st_dev:
+                other = os.path.join(cand, "verif-c15-tmp-%d" % os.getpid())
+                os.makedirs(other, exist_ok=True)
+                break
+        except OSError:
+            pass
+    ctx.extra["kill_pass_tmpdir_on_other_filesystem"] = bool(other)
+    oldtmp = os.environ.get("TMPDIR")
+    if other:
+        os.environ["TMPDIR"] = other
     evs = []
     npoints = 0
 
@@ -400,11 +415,16 @@ def kill_pass(ctx, mins, quick):
         if not (res and res["ok"]) or classify(cal) != {"k": "whole", "srv": "s1", "dt": 2}:
             raise MachineryError("kill pass: calibration run failed: %r %r" % (res, classify(cal)))
         points = K.calibrate(log, os.path.join(cal, "ofxtools", "fiprofiles"))
-        if not any(n == "write" for n, _, _ in points):
-            raise MachineryError("kill pass: no write to the cache seen by strace: %r" % (points,))
+        DATA = ("write", "pwrite64", "writev", "sendfile", "copy_file_range", "rename", "renameat", "renameat2")
+        if not any(n in DATA for n, _, _ in points):
+            raise MachineryError("kill pass: no system call that puts data into the cache seen by strace: %r" % (points,))
         if quick:
-            keep = [pt for pt in points if pt[0] in ("write", "rename", "renameat", "renameat2")]
-            points = keep[:1] + keep[-1:] + [pt for pt in points if pt[0] == "openat"][-1:]
+            keep = [pt for pt in points if pt[0] in DATA]
+            firsts = []
+            for pt in keep:
+                if pt[0] not in [f[0] for f in firsts]:
+                    firsts.append(pt)          # the first call of every kind that moves data
+            points = firsts + [pt for pt in keep[-1:] if pt not in firsts] + [pt for pt in points if pt[0] in ("openat", "close", "ftruncate")][-1:]
         for name, ordinal, text in points:
             d = os.path.join(base, "run-%d-%s-%d" % (pre, name, ordinal))
             shutil.rmtree(d, ignore_errors=True)
@@ -421,7 +441,7 @@ def kill_pass(ctx, mins, quick):
             last = [l for l in open(klog, errors="replace") if K.LINE.match(l)]
             killed = res is None and any("SIGKILL" in l for l in open(klog, errors="replace"))
             where = last[-1].strip()[:140] if last else "?"
-            if not killed or ("fiprofiles" not in where and name not in ("write", "close", "fsync")):
+            if not killed or ("fiprofiles" not in where and name not in K.FD_CALLS + ("sendfile", "copy_file_range")):
                 # the N-th call of this run was not the one calibrated (start-up differed): no verdict from this point
                 ctx.extra.setdefault("kill_points_not_reproduced", []).append("%s#%d: %s" % (name, ordinal, where))
                 shutil.rmtree(d, ignore_errors=True)
@@ -455,6 +475,12 @@ def kill_pass(ctx, mins, quick):
             npoints += 1
             shutil.rmtree(d, ignore_errors=True)
     ctx.extra["syscall_kill_points"] = npoints
+    if other:
+        shutil.rmtree(other, ignore_errors=True)
+        if oldtmp is None:
+            os.environ.pop("TMPDIR", None)
+        else:
+            os.environ["TMPDIR"] = oldtmp
     return evs
 
 
@@ -549,7 +575,9 @@ def explore(ctx, mins, rnd, quick):
         scenario("interleaving: %s (%s)" % (order, "cache present" if pre else "cache absent"),
                  lambda w, order=order, pre=pre: interleave(w, order, pre))
     # S4: pairs of clients with equal / different ORG, FID, URL
-    for orgfid in ((("ORG", "FID"), ("ORG", "FID")), ((None, None), (None, None)), (("ORG", "F1"), ("ORG", "F2")), (("O1", "FID"), ("O2", "FID"))):
+    LO, LF = "O" * 32, "F" * 32       # identifiers at their maximum length
+    for orgfid in ((("ORG", "FID"), ("ORG", "FID")), ((None, None), (None, None)), (("ORG", "F1"), ("ORG", "F2")), (("O1", "FID"), ("O2", "FID")),
+                   ((LO, LF), (LO, LF)), (("ORG 1 & Co.", "F:1*?"), ("ORG 1 & Co.", "F:1*?"))):
         for srv2 in ("s1", "s2", "s3", "s4"):
             for kinds in (("newer", "uptodate"), ("newer", "newer", "uptodate"), ("bumpnewer", "older"), ("newer", "error", "uptodate")):
                 def body(w, orgfid=orgfid, srv2=srv2, kinds=kinds):
